@@ -1,14 +1,20 @@
 /-
   C13 — "gozodgen terminates": the analyzer's only unbounded recursion.
 
-  `(*StructAnalyzer).typesToReflectType` (cmd/gozodgen/analyzer.go) converts the go/types type of every field of
-  every struct declaration; everything else in the analyzer and the writer is a loop over a finite list or a
+  `(*StructAnalyzer).typesToReflectTypeOn` (cmd/gozodgen/analyzer.go, since 65a0069) converts the go/types type of every
+  field of every struct declaration; everything else in the analyzer and the writer is a loop over a finite list or a
   recursion on a proper suffix of a string (`baseConstructor`, modelled with its length as fuel in `GenEmit`).
   Model of go/types: named types are indices into an environment that gives their underlying type.
 
-      convF env fuel t     the function AS WRITTEN (no visited set), with fuel; `none` = fuel exhausted
-      convV env rem t      the function with the proposed fix (pending/C13-recursive-named.diff): a named type that is
-                           already on the conversion stack becomes `any`; `rem` = the names not on the stack
+      convS env fuel stack t   THE LIVE FUNCTION, transcribed statement by statement (type switch, `time.Time` test,
+                               `slices.Contains(stack, typ)`, recursion on `typ.Underlying()` with `append(stack, typ)`),
+                               with fuel because Go does not promise termination; `none` = fuel exhausted
+      convV env rem t          the same function as a TOTAL Lean function: `rem` = the names not on the stack; accepted by
+                               Lean's termination checker with the measure `convMeasure` = (|rem|, size t), lexicographic.
+                               `C13.c13_term`: for every environment and type some fuel suffices for `convS`, and its
+                               result is `convV`'s — this is what the driver computes and compares with the reflect.Type
+                               the real analyzer built (op `tconv`).
+      convF env fuel t         LEGACY: the function before 65a0069 (no stack); diverges on `type A []A`. Witness only.
 -/
 namespace Gozod.GenTerm
 
@@ -28,7 +34,7 @@ inductive RT
 
 abbrev Env := List GT
 
-/-- `typesToReflectType`, as written -/
+/-- LEGACY: `typesToReflectType` as written before 65a0069 (no stack of named types) -/
 def convF (env : Env) : Nat → GT → Option RT
   | 0, _ => none
   | _ + 1, .basic => some .basic
@@ -54,7 +60,8 @@ def GT.size : GT → Nat
   | _ => 1
 
 set_option linter.unusedVariables false in
-/-- the conversion with a stack check: a named type already being converted becomes `any` -/
+/-- the conversion of /repo HEAD (stack check: a named type already being converted becomes `any`), as a total function;
+    `rem` = the named types NOT on the stack -/
 def convV (env : Env) (rem : List Nat) (t : GT) : RT :=
   match t with
   | .basic => .basic
@@ -77,12 +84,54 @@ decreasing_by
     | (apply Prod.Lex.right; simp [GT.size]; try omega)
     | (apply Prod.Lex.left; rw [List.length_erase_of_mem h]; exact Nat.sub_lt (List.length_pos_of_mem h) (by decide))
 
+/-- the termination measure of `convV`, ordered lexicographically: (names not yet on the stack, size of the type) -/
+def convMeasure (rem : List Nat) (t : GT) : Nat × Nat := (rem.length, t.size)
+
+/-- `typesToReflectTypeOn(t, stack)` AS WRITTEN in /repo HEAD, with fuel (one unit per call):
+
+        case *types.Named:
+            if <time.Time> { return timeType }                      -- `GT.time` is that case
+            if slices.Contains(stack, typ) { return any }
+            return a.typesToReflectTypeOn(typ.Underlying(), append(stack, typ))   -/
+def convS (env : Env) : Nat → List Nat → GT → Option RT
+  | 0, _, _ => none
+  | _ + 1, _, .basic => some .basic
+  | f + 1, st, .pointer e => (convS env f st e).map .ptr
+  | f + 1, st, .slice e => (convS env f st e).map .slice
+  | f + 1, st, .array e => (convS env f st e).map .slice
+  | f + 1, st, .map k v =>
+    match convS env f st k, convS env f st v with
+    | some a, some b => some (.map a b)
+    | _, _ => none
+  | f + 1, st, .named n =>
+    if st.contains n then some .any
+    else match env[n]? with
+      | some u => convS env f (st ++ [n]) u
+      | none => some .any
+  | _ + 1, _, .time => some .timeMarker
+  | _ + 1, _, .struct => some .any
+  | _ + 1, _, .iface => some .any
+  | _ + 1, _, .other => some .any
+
+/-- how the harness prints a reflect.Type (harness/cmd/c13/wide.go, hook `GOZODGEN_VERIF_TYPES`): by Kind — the basic
+    type of the cases is `int`, `interface{}` is written `any`, the marker struct `timeType` is written `time` -/
+def RT.render : RT → String
+  | .basic => "int"
+  | .ptr e => "*" ++ e.render
+  | .slice e => "[]" ++ e.render
+  | .map k v => "map[" ++ k.render ++ "]" ++ v.render
+  | .timeMarker => "time"
+  | .any => "any"
+
 /-- a program: the environment of named types, and the field types of its struct declarations -/
 structure Prog where
   env : Env
   fields : List GT
 
-/-- what the analyzer does with a program (as written): every field of every struct is converted -/
+/-- LEGACY: what the analyzer before 65a0069 did with a program: every field of every struct is converted -/
 def analyzeF (p : Prog) (fuel : Nat) : Bool := p.fields.all fun t => (convF p.env fuel t).isSome
+
+/-- the reflect.Types the live analyzer builds for the fields of a program -/
+def analyzeV (p : Prog) : List RT := p.fields.map (convV p.env (List.range p.env.length))
 
 end Gozod.GenTerm
